@@ -1,0 +1,37 @@
+//go:build verif
+
+package target
+
+import (
+	"context"
+	"sync"
+
+	"github.com/sdcio/data-server/pkg/config"
+	schemaClient "github.com/sdcio/data-server/pkg/datastore/clients/schema"
+	"github.com/sdcio/data-server/pkg/datastore/target/netconf"
+)
+
+const targetTypeVERIF = "verif"
+
+// VerifFactory, when set, builds the Target for SBI type "verif" (verification harness only).
+var VerifFactory func(ctx context.Context, name string, cfg *config.SBI, sc schemaClient.SchemaClientBound) (Target, error)
+
+func verifTarget(ctx context.Context, name string, cfg *config.SBI, sc schemaClient.SchemaClientBound) (Target, bool, error) {
+	if cfg.Type != targetTypeVERIF || VerifFactory == nil {
+		return nil, false, nil
+	}
+	t, err := VerifFactory(ctx, name, cfg, sc)
+	return t, true, err
+}
+
+// NewNCTargetForVerif builds the production NETCONF target around a harness supplied driver.
+func NewNCTargetForVerif(name string, cfg *config.SBI, sc schemaClient.SchemaClientBound, d netconf.Driver) Target {
+	return &ncTarget{
+		name:             name,
+		m:                new(sync.Mutex),
+		driver:           d,
+		schemaClient:     sc,
+		sbiConfig:        cfg,
+		xml2sdcpbAdapter: netconf.NewXML2sdcpbConfigAdapter(sc),
+	}
+}
